@@ -12,14 +12,23 @@ meta = json.load(open(f"{d}/meta.json"))
 demo_rel = meta["demo_test_path"]; demo_src = f"{d}/{os.path.basename(demo_rel)}"
 pkg = "./" + os.path.dirname(demo_rel)
 tmp = tempfile.mkdtemp(prefix="seedov_")
-ov = f"{tmp}/ov.json"; json.dump({"Replace": {f"/repo/{demo_rel}": demo_src}}, open(ov, "w"))
+def place_demo():
+    os.makedirs(os.path.dirname(f"/repo/{demo_rel}"), exist_ok=True)
+    shutil.copy(demo_src, f"/repo/{demo_rel}")
+def remove_demo():
+    try: os.remove(f"/repo/{demo_rel}")
+    except FileNotFoundError: pass
+    d_ = os.path.dirname(f"/repo/{demo_rel}")
+    if os.path.isdir(d_) and not os.listdir(d_): os.rmdir(d_)
 out = {"seed": d, "property": props}
 assert sh("git status --porcelain")[1].strip() == "", "repo not clean"
 rc, o = sh(f"git apply {d}/patch.diff"); assert rc == 0, o
 try:
     rc, o = sh("go build ./... && go test -vet=off -count=1 ./... 2>&1 | grep -v 'no test files'")
     out["suite_with_change"] = "pass" if rc == 0 and "FAIL" not in o else "FAIL"
-    rc, o = sh(f"go test -overlay {ov} -vet=off -timeout 120s -count=1 {pkg}")
+    place_demo()
+    rc, o = sh(f"go test -vet=off -timeout 120s -count=1 {pkg}")
+    remove_demo()
     out["demo_with_change"] = "fails (as required)" if rc != 0 else "PASSES (bad seed)"
     out["checks"] = {}
     for p in props:
@@ -28,7 +37,9 @@ try:
         out["checks"][p] = {"exit": rc, "lines": [v[:300] for v in viol]}
 finally:
     sh("git checkout -- . && git clean -fdq -- . ':!*zz_contracts_verif.go'")
-rc, o = sh(f"go test -overlay {ov} -vet=off -timeout 120s -count=1 {pkg}")
+place_demo()
+rc, o = sh(f"go test -vet=off -timeout 120s -count=1 {pkg}")
+remove_demo()
 out["demo_without_change"] = "passes (as required)" if rc == 0 else "FAILS (bad seed): " + o[-300:]
 out["repo_clean_after"] = sh("git status --porcelain")[1].strip() == ""
 shutil.rmtree(tmp)
